@@ -418,6 +418,65 @@ func c12cCallbackBody(res *string) func(x *sched.Exec) {
 	}
 }
 
+// c12cTwoCollectsBody (K15): two collections of ONE reader in flight at once (ManualReader.Collect is
+// documented as safe for concurrent use; a periodic reader has the same when a ForceFlush meets an
+// interval export). An observable counter observes {k=v,u=1}:2 and {k=v,u=2}:3 in every cycle and is
+// read through an attribute filter that keeps k: every collection reports {k=v}=5 -- its own
+// cycle's observations added together, not the other collection's as well, and not nothing.
+func c12cTwoCollectsBody(res *string) func(x *sched.Exec) {
+	return func(x *sched.Exec) {
+		ctx := context.Background()
+		cum := NewManualReader()
+		mp := NewMeterProvider(WithReader(cum), WithView(NewView(Instrument{Name: "oc"}, Stream{AttributeFilter: attribute.NewAllowKeysFilter("k")})))
+		meter := mp.Meter("m")
+		sync1, _ := meter.Int64Counter("plain")
+		sync1.Add(ctx, 1)
+		_, err := meter.Int64ObservableCounter("oc", api.WithInt64Callback(func(_ context.Context, o api.Int64Observer) error {
+			o.Observe(2, api.WithAttributes(attribute.String("k", "v"), attribute.Int("u", 1)))
+			sched.Yield("between two observations", &cum)
+			o.Observe(3, api.WithAttributes(attribute.String("k", "v"), attribute.Int("u", 2)))
+			return nil
+		}))
+		if err != nil {
+			x.Fail("C12|conc|two-collects|setup", "%v", err)
+			return
+		}
+		outs := make([]string, 2)
+		var wg vsync.WaitGroup
+		wg.Add(2)
+		for i := 0; i < 2; i++ {
+			sched.Go(func() {
+				defer wg.Done()
+				var rm metricdata.ResourceMetrics
+				if err := cum.Collect(ctx, &rm); err != nil {
+					outs[i] = "error: " + err.Error()
+					return
+				}
+				var total, points int64
+				for _, sm := range rm.ScopeMetrics {
+					for _, m := range sm.Metrics {
+						if d, ok := m.Data.(metricdata.Sum[int64]); ok && m.Name == "oc" {
+							for _, dp := range d.DataPoints {
+								points++
+								total += dp.Value
+							}
+						}
+					}
+				}
+				outs[i] = fmt.Sprintf("points=%d total=%d", points, total)
+			})
+		}
+		wg.Wait()
+		for i, o := range outs {
+			if o != "points=1 total=5" {
+				x.Fail("C12|conc|two-collects|filtered observable sum of one cycle", "collection %d of two concurrent collections of one reader reports %s for the observable counter; its callback observed 2 and 3 under one filtered attribute set (want points=1 total=5)", i+1, o)
+			}
+		}
+		*res = fmt.Sprint(outs)
+		_ = mp.Shutdown(ctx)
+	}
+}
+
 func TestVerifC12Conc(t *testing.T) {
 	thorough := enum.Start("C12", "probe").Thorough()
 	all := c12cJobs(thorough)
@@ -438,10 +497,20 @@ func TestVerifC12Conc(t *testing.T) {
 	}
 	cbJob := fmt.Sprintf("K14-collect-vs-unregister-of-the-middle-callback/P%d", pc)
 	names = append(names, cbJob)
+	tcJob := fmt.Sprintf("K15-two-collections-of-one-reader-observable-through-a-filter/P%d", pc)
+	names = append(names, tcJob)
 	sort.Strings(names[len(all):])
 	enum.Jobs(names, func(job string) {
 		r := enum.Start("C12", "conc")
 		defer r.Finish()
+		if job == tcJob {
+			r.Bound("conc/two_collects_max_preemptions", pc)
+			var res string
+			st := sched.Explore(r, sched.Config{Name: job, MaxP: pc, MaxE: 0, MaxSteps: 6000, Body: c12cTwoCollectsBody(&res),
+				Outcome: func(*sched.Exec) string { return res }})
+			t.Logf("%s: execs=%d states=%d outcomes=%d complete=%v keys=%v", job, st.Execs, st.States, len(st.Outcomes), st.Complete, r.Keys())
+			return
+		}
 		if job == cbJob {
 			r.Bound("conc/callbacks_max_preemptions", pc)
 			var res string
